@@ -11,3 +11,35 @@ package websocket
 //@ use casketfile/contracts_verif.go:dispenser_api
 //@ use @verif/specs/stdlib.spec:stdlib
 //@ use @verif/specs/stdlib.spec:casket_api
+
+//@ unit handler_sweep props=C19 files=websocket.go nilchecks=on nonnil_params=on filter=`.`
+//@ // the websocket handler and its pumps between the client connection and the command's pipes: safety sweep - index,
+//@ // slice, nil dereference, division, explicit panic - on request data and on bytes from either side, with the text pump's
+//@ // carry-over buffer under contract: at most the bytes of one incomplete UTF-8 sequence are carried from one read to the
+//@ // next, they always fit the next buffer, and nothing is sliced past what was read - for every buffer size and every
+//@ // byte sequence the command writes
+//@ use @verif/specs/stdlib.spec:stdlib
+//@ use @verif/specs/stdlib.spec:nethttp_api
+//@ use @verif/specs/stdlib.spec:time_sinks
+//@ extern os/exec.Command
+//@   ensures result != nil
+//@ extern invoke:(github.com/tmpim/casket/caskethttp/websocket.wsUpgrader).Upgrade
+//@   ensures result1 == nil ==> result0 != nil
+//@ extern (*os/exec.Cmd).StdoutPipe
+//@   ensures result1 == nil ==> result0 != nil
+//@ extern (*os/exec.Cmd).StdinPipe
+//@   ensures result1 == nil ==> result0 != nil
+//@ extern bufio.NewReader
+//@   ensures result != nil
+//@ extern bufio.NewScanner
+//@   ensures result != nil
+//@ extern (*bufio.Reader).Read
+//@   ensures 0 <= result0 && result0 <= len(p)
+//@ func findIncompleteRuneLength
+//@   requires [length_within_the_buffer] 0 <= length && length <= len(p)
+//@   ensures [at_most_what_was_read] 0 <= result && result <= length
+//@   loop 1 invariant start <= length - 1 && lowest >= 0 && lowest <= length
+//@ func pumpStdout
+//@   requires conn != nil && stdout != nil && config != nil
+//@   loop 2 invariant bufSize >= 1 && 0 <= remainLen && remainLen <= bufSize && remainLen <= len(remainBuf) && r != nil
+//@   loop 3 invariant bufSize >= 1 && r != nil
